@@ -213,6 +213,166 @@ fn check(c: &Case, st: &mut Stats) -> Result<(), String> {
     Ok(())
 }
 
+// --- small blocks at overhead 0, in bulk -----------------------------------------------------------
+
+/// Exactly K distinct symbols of a small block in one call (then one more): at a few microseconds
+/// per case millions of sets can be judged, which is what a defect confined to one set in 10^5
+/// needs. Repair-only sets and mixed sets.
+fn strategy_smallk() -> impl Strategy<Value = Case> {
+    (prop_oneof![6 => 8u32..=13, 1 => 1u32..=7, 2 => 14u32..=30], any::<u64>(), any::<u64>(), 0u8..3).prop_map(|(k, rs, seed, backend)| {
+        let s = match rs % 4 {
+            0 | 1 => 0,
+            2 => k - 1,
+            _ => ((rs >> 8) % k as u64) as u32,
+        };
+        // overhead 1: the check judges the K-prefix and the full set
+        Case { k, t: 1, esis: build_sequence(k, s, 1, seed, 1), backend }
+    })
+}
+
+fn check_smallk(c: &Case, st: &mut Stats) -> Result<(), String> {
+    let fx = fixture(c.k, c.t);
+    let pr = fx.pr;
+    let k = c.k;
+    let cfg = block_cfg(k as usize, c.t);
+    let mut oracle = fx.oracle.clone();
+    let mut src = 0u32;
+    for (n, &esi) in c.esis.iter().enumerate() {
+        oracle.insert(rf::enc_row(&pr, rf::esi_to_isi(&pr, esi)));
+        if esi < k {
+            src += 1;
+        }
+        let received = n as u32 + 1;
+        if received < k {
+            continue;
+        }
+        let mut dec = SourceBlockDecoder::new(0, &cfg, (k as usize * c.t) as u64);
+        match c.backend {
+            1 => dec.verif_set_sparse_threshold(0),
+            2 => dec.verif_set_sparse_threshold(u32::MAX),
+            _ => {}
+        }
+        let got = dec.decode(c.esis[..=n].iter().map(|&e| packet(&fx, e)).collect::<Vec<_>>());
+        let want = src == k || oracle.full();
+        st.eval();
+        if received == k && src < k {
+            st.class(if want { "exactly K symbols, full rank" } else { "exactly K symbols, rank deficient" });
+            if n == k as usize - 1 {
+                st.nt(fnv_u64s(&[k as u64, crate::util::fnv_u64s(&c.esis[..=n].iter().map(|&e| e as u64).collect::<Vec<_>>())]));
+            }
+        }
+        match (&got, want) {
+            (Some(bytes), true) if bytes != &fx.data => return Err(format!("K={k}: a batch of {received} symbols ({src} source) returned wrong bytes")),
+            (None, true) => {
+                return Err(format!(
+                    "K={k} (K'={}, L={}): gave up on a decodable set: {received} distinct symbols ({src} source) in one call, rank(A) = L, yet decode() returned None; ESIs {:?}",
+                    pr.kp,
+                    pr.l,
+                    &c.esis[..=n]
+                ))
+            }
+            (Some(_), false) => return Err(format!("K={k}: answered for an undecodable set: {received} distinct symbols ({src} source), rank(A) = {} < L", oracle.rank())),
+            _ => {}
+        }
+    }
+    st.sample(|| json!({"K": k, "esis": c.esis, "source": src}));
+    Ok(())
+}
+
+// --- adversarial arrival sequences: several consecutive rank-deficient prefixes ------------------
+
+/// An arrival sequence (source symbols first, at least one missing) whose prefixes of length
+/// K, K+1, .., K+depth are ALL rank deficient, followed by symbols that complete the rank and two
+/// more. Built with the rank oracle: a deficient K-set is found by sampling (about one set in 150),
+/// every further symbol is searched among generated repair ESIs so that the rank stays below L.
+/// Random sequences practically never contain such prefixes (probability about 256^-depth).
+pub fn adversarial_sequence(k: u32, seed: u64, depth: u32) -> Option<Vec<u32>> {
+    let fx = fixture(k, 1);
+    let pr = fx.pr;
+    let mut rng = SplitMix::new(seed);
+    let row = |e: u32| rf::enc_row(&pr, rf::esi_to_isi(&pr, e));
+    for _ in 0..6000 {
+        let missing = 1 + rng.below(k.min(4) as u64) as u32;
+        let mut seq = build_sequence(k, k - missing, 0, rng.next_u64(), 1);
+        let mut oracle = fx.oracle.clone();
+        for &e in &seq {
+            oracle.insert(row(e));
+        }
+        if oracle.full() {
+            continue;
+        }
+        let mut used: std::collections::HashSet<u32> = seq.iter().copied().collect();
+        let mut ok = true;
+        for _ in 0..depth {
+            let mut found = None;
+            for _ in 0..4000 {
+                let e = repair_esi(rng.next_u64(), rng.next_u64(), k);
+                if used.contains(&e) {
+                    continue;
+                }
+                let mut o2 = oracle.clone();
+                o2.insert(row(e));
+                if !o2.full() {
+                    found = Some((e, o2));
+                    break;
+                }
+            }
+            match found {
+                Some((e, o2)) => {
+                    seq.push(e);
+                    used.insert(e);
+                    oracle = o2;
+                }
+                None => {
+                    ok = false;
+                    break;
+                }
+            }
+        }
+        if !ok {
+            continue;
+        }
+        // rescue: new repair symbols until the rank is full, then two more
+        let mut after = 0;
+        let mut guard = 0;
+        while after < 2 && guard < 400 {
+            guard += 1;
+            let e = repair_esi(rng.next_u64(), rng.next_u64(), k);
+            if !used.insert(e) {
+                continue;
+            }
+            if oracle.full() {
+                after += 1;
+            }
+            oracle.insert(row(e));
+            seq.push(e);
+        }
+        if oracle.full() {
+            return Some(seq);
+        }
+    }
+    None
+}
+
+pub fn adversarial_k(r: u64) -> u32 {
+    match r % 8 {
+        0 => 10,
+        1 => 26,
+        2 => 50,
+        3 => 100,
+        _ => 1 + ((r >> 8) % 40) as u32,
+    }
+}
+
+fn strategy_adversarial() -> impl Strategy<Value = Case> {
+    (any::<u64>(), any::<u64>(), 1u32..=4, 0u8..3).prop_map(|(rk, seed, depth, backend)| {
+        let k = adversarial_k(rk);
+        // (a block size for which no sequence is found within the budget yields an empty case)
+        let esis = adversarial_sequence(k, seed, depth).unwrap_or_default();
+        Case { k, t: 1, esis, backend }
+    })
+}
+
 // --- one batch call with a generated (possibly very large) overhead -------------------------------
 
 fn strategy_batch() -> impl Strategy<Value = Case> {
@@ -406,15 +566,28 @@ fn sig(msg: &str) -> String {
 }
 
 pub fn run(ctx: &Ctx, rep: &mut Report) {
-    rep.rule = "generated arrival sequences of distinct ESIs for one block: K in 1..=60 weighted (up to 300 quick / 600 thorough), a generated number of source symbols (none, all, K-1, or uniform) plus repair ESIs from the near / uniform-24-bit / far classes, K + overhead symbols in total with overhead in {0,1,2,3} U {H-2..H+3} U {S+H} U {H+3..H+8} (the latter straddle the trigger of the binary-only fast path), in shuffled / source-first / repair-first order, decoder back-end default / sparse / dense. After EVERY packet: decode(..).is_some() <=> (all K source symbols received) or (rank of the RFC constraint matrix for the received set = L), with the rank computed by an independent incremental GF(256) elimination over reference-generated rows; Some implies the right bytes. A second group hands the whole set to the decoder in ONE call, with a source symbol missing and an overhead drawn from {0, 1..3, H-1..H+1, S+H.., K.., 60.., 248..263 (across 255/256), 500..800, 2040.. , 4K..} (the large ones on K <= 60), same oracle; a third group ('hugebatch') hands 65 300..140 000 distinct symbols of a block of at most 100 symbols to the decoder in one call (more than 2^16 matrix rows). Large blocks (K' up to 2000 quick / 10000 thorough) are checked at selected set sizes with a structured rank routine (bit-packed GF(2) elimination + GF(256) residual of the HDPC rows). Non-trivial = a sequence with a prefix of >= K distinct symbols and a source symbol missing; distinct by (K, T, sequence).".into();
+    rep.rule = "generated arrival sequences of distinct ESIs for one block: K in 1..=60 weighted (up to 300 quick / 600 thorough), a generated number of source symbols (none, all, K-1, or uniform) plus repair ESIs from the near / uniform-24-bit / far classes, K + overhead symbols in total with overhead in {0,1,2,3} U {H-2..H+3} U {S+H} U {H+3..H+8} (the latter straddle the trigger of the binary-only fast path), in shuffled / source-first / repair-first order, decoder back-end default / sparse / dense. After EVERY packet: decode(..).is_some() <=> (all K source symbols received) or (rank of the RFC constraint matrix for the received set = L), with the rank computed by an independent incremental GF(256) elimination over reference-generated rows; Some implies the right bytes. A second group hands the whole set to the decoder in ONE call, with a source symbol missing and an overhead drawn from {0, 1..3, H-1..H+1, S+H.., K.., 60.., 248..263 (across 255/256), 500..800, 2040.. , 4K..} (the large ones on K <= 60), same oracle; a third group ('hugebatch') hands 65 300..140 000 distinct symbols of a block of at most 100 symbols to the decoder in one call (more than 2^16 matrix rows). A bulk group ('smallk': 3 million sets quick, 60 million thorough) judges exactly K (then K+1) symbols of blocks of 1..30 symbols (weighted to 8..13), repair-only or mixed, in one call each. A fourth group ('adversarial', also run in the chk profile) feeds arrival sequences constructed with the rank oracle so that the prefixes of length K, K+1, .., K+depth (depth 1..4) are ALL rank deficient before further symbols complete the rank - histories that random generation reaches with probability about 256^-depth - and applies the per-packet oracle to them. Large blocks (K' up to 2000 quick / 10000 thorough) are checked at selected set sizes with a structured rank routine (bit-packed GF(2) elimination + GF(256) residual of the HDPC rows). Non-trivial = a sequence with a prefix of >= K distinct symbols and a source symbol missing; distinct by (K, T, sequence).".into();
     rep.assumptions.push("rank oracle rows come from the reference model (trusted tables); exact incremental oracle for K <= 600, structured rank up to K' = 10000; beyond that only C01's soundness applies".into());
     let kmax = ctx.tier.pick(300u32, 600);
+    if ctx.only.is_none() {
     let n = std::env::var("C02_N").ok().and_then(|s| s.parse().ok()).unwrap_or(ctx.tier.pick(200_000u64, 2_000_000));
     rep.absorb("prefixes", run_sharded("C02", "prefixes", ctx.seed, n, 64, move || strategy(kmax), check, to_json, signature));
 
     let n = ctx.tier.pick(40_000u64, 600_000);
     rep.absorb("batch", run_sharded("C02", "batch", ctx.seed, n, 64, strategy_batch, check_batch, to_json, signature));
+    }
 
+    if ctx.only.is_none() {
+        let n = ctx.tier.pick(3_000_000u64, 60_000_000);
+        rep.absorb("smallk", run_sharded("C02", "smallk", ctx.seed, n, 64, strategy_smallk, check_smallk, to_json, signature));
+    }
+    if ctx.wants("adversarial") {
+        let n = ctx.tier.pick(400u64, 6000);
+        rep.absorb("adversarial", run_sharded("C02", "adversarial", ctx.seed, n, 32, strategy_adversarial, check, to_json, signature));
+    }
+    if ctx.only.is_some() {
+        return;
+    }
     let n = ctx.tier.pick(32u64, 600);
     rep.absorb("hugebatch", run_sharded("C02", "hugebatch", ctx.seed, n, 16, strategy_hugebatch, check_batch, to_json, signature));
 
@@ -466,6 +639,8 @@ pub fn replay(sub: &str, case: &Value) -> Result<(), String> {
     let mut st = Stats::new();
     match sub {
         "batch" | "hugebatch" => check_batch(&from_json(case), &mut st),
+        "adversarial" => check(&from_json(case), &mut st),
+        "smallk" => check_smallk(&from_json(case), &mut st),
         "large" => check_large(
             &LargeItem {
                 k: case["k"].as_u64().unwrap() as u32,
